@@ -10,6 +10,7 @@ import (
 	"verifmc/internal/ev"
 	"verifmc/internal/explore"
 	"verifmc/internal/extract"
+	"verifmc/internal/model"
 	"verifmc/internal/spec"
 )
 
@@ -163,6 +164,45 @@ func runC06(c *Ctx) {
 		Describe: func(idx []int) any {
 			return map[string]any{"content": corpus[idx[0]].Name, "encoding": encs[idx[1]].Name, "decoder": decoderNames[idx[2]]}
 		}}
+	// chunk-count boundaries of the header: the size-minus-one field of the run-capable cookie (16 bits), the run-flag
+	// bitset length (chunk counts not a multiple of 8), the offset-header threshold (4), up to all 65536 chunks
+	counts := []int{1, 3, 4, 5, 7, 8, 9, 255, 256, 257, 65535, 65536}
+	cencs := []int{len(subsetChoices()) + 0, len(subsetChoices()) + 1, len(subsetChoices()) + 2, len(subsetChoices()) + 6}
+	var cexecs int64
+	cb := &explore.Product{Name: "chunk-count boundaries x cookie / run choices x 5 decoders", Dims: []int{len(counts), len(cencs), len(decoderNames)}, Deadline: c.Budget(105, 1650), Execs: &cexecs,
+		Run: func(idx []int) (string, *ev.Fail) {
+			n, e := counts[idx[0]], encs[cencs[idx[1]]]
+			m := model.New32()
+			for k := 0; k < n; k++ {
+				key := uint32(k)
+				if n < 65535 && k == n-1 {
+					key = 0xFFFF // the last chunk sits at the top of the key space
+				}
+				m.Add(key<<16 | uint32(k%7))
+				if k%5 == 0 {
+					m.AddRange(uint64(key)<<16|100, uint64(key)<<16|110)
+				}
+			}
+			cs := spec.FromModel(m, e.Kind, e.Gran)
+			data := spec.EncodePortable(cs, e.ForceCookie)
+			rb := roaring.New()
+			api := decoderNames[idx[2]]
+			rep, consumed, err := decode32(idx[2], rb, data)
+			atomic.AddInt64(&cexecs, 1)
+			if err != nil {
+				return "", fail(api, "rejects-conformant", "%s rejects a spec-conformant stream of %d chunks (%s): %v", api, n, e.Name, err)
+			}
+			if rep >= 0 && rep != int64(len(data)) || consumed >= 0 && consumed != len(data) {
+				return "", fail(api, "accounting", "%s on a conformant stream of %d chunks (%s): reported %d consumed %d of %d bytes", api, n, e.Name, rep, consumed, len(data))
+			}
+			if got := extract.Of(rb); !got.Equal(m) {
+				return "", fail(api, "misread", "%s reads a spec-conformant stream of %d chunks (%s) as a different set: %s", api, n, e.Name, diff32(got, m))
+			}
+			return e.Name, nil
+		},
+		Describe: func(idx []int) any {
+			return map[string]any{"chunks": counts[idx[0]], "encoding": encs[cencs[idx[1]]].Name, "decoder": decoderNames[idx[2]]}
+		}}
 	// golden files written by other implementations
 	repo := "/repo"
 	if r := os.Getenv("VERIF_REPO"); r != "" {
@@ -189,5 +229,5 @@ func runC06(c *Ctx) {
 			}
 			return "ok", nil
 		}}
-	runScenarios(c, wr, rd, gd, corpusReadback(c, "corpus construction: FromUnsafeBytes(ToBytes())", "ToBytes"))
+	runScenarios(c, wr, rd, cb, gd, corpusReadback(c, "corpus construction: FromUnsafeBytes(ToBytes())", "ToBytes"))
 }
